@@ -262,10 +262,10 @@ func (r rapidSource) Bytes(label string, n int) []byte { return hx.FixedBytes(r.
 func (r rapidSource) Int(label string, n int) int      { return rapid.IntRange(0, n-1).Draw(r.t, label) }
 
 type clientCase struct {
-	Scenario *scen.Scenario
-	Errors   map[int]Case // tag -> the rpc_error its request is answered with
-	Migrate  int          // tag that is answered with PHONE_MIGRATE_<DC> (0 = none)
-	DC       int
+	Scenario   *scen.Scenario
+	Errors     map[int]Case // tag -> the rpc_error its request is answered with
+	Migrate    int          // tag that is answered with PHONE_MIGRATE_<DC> (0 = none)
+	DC         int
 	Configured bool
 }
 
